@@ -136,6 +136,24 @@ ROUND8 = {
 for _k, _v in ROUND8.items():
     CHECKS[_k]["technique"] += _v
 
+# workload dimensions / oracles added in seeding round 9
+ROUND9 = {
+ "C02": "; root and include declaring structs of the same bare name with struct literals of the included type in constants and container defaults",
+ "C03": "; handler-added response headers that leave no room for any reply, for every outcome kind",
+ "C04": "; sessions: one FProtocol object writes and one reads a whole sequence of messages (header block + Thrift payload) with shrinking / growing / alternating block sizes",
+ "C05": "; near-limit requests whose bulk sits in echoed header values, bounded goroutine stack while a request is in flight",
+ "C06": "; last response frame followed at once by the end of the session while its caller is held before its select",
+ "C07": "; several subscription periods (Subscribe / Unsubscribe / Subscribe again) on ONE subscriber transport object with period-indexed delivery roles",
+ "C10": "; line breaks and line comments at every place inside a declaration where white space may span lines (Wrap knob)",
+ "C11": "; include-graph shape: deep layered diamond graphs judged against a chain control of the same size",
+ "C13": "; peer answering in time while the client's own Write / Flush is still stalled",
+ "C14": "; HTTP reply body judged as a frame (size prefix = length) under concurrent posts with different reply sizes",
+ "C16": "; call issued after a timed-out call whose Write is still stalled (shared request buffer)",
+ "C20": "; drain duration (parked backlog that needs longer than Stop's internal patience)",
+}
+for _k, _v in ROUND9.items():
+    CHECKS[_k]["technique"] += _v
+
 def main():
     props = [json.loads(l) for l in open(os.path.join(ROOT, "properties.jsonl"))]
     checks, na = [], []
